@@ -50,7 +50,7 @@ def finish_worker(ctx):
 
 def make_case(ctx, idx):
     r = case_rng(ctx.seed, ID, idx)
-    return {"ops": gen.Gen(r, gen.profile("c02")).program(), "dest": r.choice(["str", "text", "bytes"])}
+    return {"ops": gen.Gen(r, gen.profile("c02", multi_member=0.15)).program(), "dest": r.choice(["str", "text", "bytes"])}
 
 
 def xml_char_ok(s):
